@@ -27,7 +27,7 @@ CLAIMED = {
             "DESIGN.md 4 C04", "Independent frame parser and reference HPACK decoder (validated against the third-party fixture stories).",
             SIM + ": wire life-cycle automaton"),
     "C05": ("exploration",
-            "Outbound: at every stream-opening HEADERS the count of self-initiated streams not yet closed (most favourable reading) must stay within the peer's acknowledged MAX_CONCURRENT_STREAMS; progress with small limits and many racing request handles shows every closing path frees its slot. Inbound: refusals beyond the advertised limit are REFUSED_STREAM and never reach the application; idle-state check shows the concurrency counters return to zero.",
+            "Outbound: at every stream-opening HEADERS the count of self-initiated streams not yet closed (most favourable reading) must stay within the peer's acknowledged MAX_CONCURRENT_STREAMS (server-pushed streams count from their response HEADERS on, also when the response is submitted after the PUSH_PROMISE was written; streams above a processed GOAWAY's last-stream-id stop counting); progress with small limits and many racing request handles shows every closing path frees its slot. Inbound: refusals beyond the advertised limit are REFUSED_STREAM and never reach the application; idle-state check shows the concurrency counters return to zero.",
             "DESIGN.md 4 C05", "Limit 0 that is never raised is not generated in cooperative runs (legitimate block).",
             SIM + ": wire concurrency counter + progress oracle"),
     "C06": ("exploration",
@@ -67,7 +67,7 @@ CLAIMED = {
             "DESIGN.md 4 C14", "Settings are taken to apply at the instant the endpoint encodes the ACK (which is what h2 does). The overtaking limit (4 frames) is a bounded-liveness reading of 'even under write back-pressure'; h2 itself encodes the acknowledgement before anything else.",
             SIM + ": wire ACK accountant under write back-pressure"),
     "C15": ("exploration",
-            "Graceful and abrupt server shutdown and client drop at drawn steps of multi-stream exchanges: GOAWAY last-stream-ids emitted never increase, no stream above a processed GOAWAY's last-stream-id is opened, a connection that sent an error GOAWAY fails its own future, no GOAWAY(NO_ERROR) last-stream-id is below a stream already handed to the application, the client's connection result reports the server's code as a remote GOAWAY, after graceful_shutdown every accepted stream completes and the server closes the connection by itself once drained (T1 at the idle point; T2 against a scripted peer that never closes first, with keep-alive user pings in flight: final GOAWAY present, streams opened after it not processed, streams at or below it ended), streams complete or fail on every handle (C07 oracles), completed messages survive the shutdown.",
+            "Graceful and abrupt server shutdown and client drop at drawn steps of multi-stream exchanges: GOAWAY last-stream-ids emitted never increase, no stream above a processed GOAWAY's last-stream-id is opened, a connection that sent an error GOAWAY fails its own future, no GOAWAY(NO_ERROR) last-stream-id is below a stream already handed to the application (server: accepted requests; client: pushed streams whose response it holds, with pushed responses submitted in any order), the client's connection result reports the server's code as a remote GOAWAY, after graceful_shutdown every accepted stream completes and the server closes the connection by itself once drained (T1 at the idle point; T2 against a scripted peer that never closes first, with keep-alive user pings in flight: final GOAWAY present, streams opened after it not processed, streams at or below it ended), streams complete or fail on every handle (C07 oracles), completed messages survive the shutdown.",
             "DESIGN.md 4 C15", "Debug-data propagation and the PING-delimited graceful sequence are observed through the same wire monitor but not asserted frame by frame.",
             SIM + ": GOAWAY monitor + outcome oracles"),
     "C16": ("exploration",
